@@ -18,6 +18,7 @@ right after the `wait_internal` that started the frame if there was none; `touch
 events; `doneAnchor`/`doneTouches` are their final values for the frame completed last.
 -/
 import ZxVerif.Lemmas.VideoBusScreen
+import ZxVerif.Lemmas.VideoBusIdle
 import ZxVerif.Lemmas.Z80Closed
 import ZxVerif.Props.C08
 namespace ZxVerif.C08Sys
@@ -229,6 +230,40 @@ theorem cpu_write_before_after_beam (m : Machine) (z1 : VBus) (h1 : SGood m z1) 
     rw [hpix, if_pos (by omega)]
 
 /-! Non-vacuity -/
+
+theorem new_ramByte (m : Machine) (rb off : Nat) : (Mem.new m).ramByte rb off = 0 := by
+  cases m <;> simp only [Mem.new, Mem.ramByte, getD_replicate] <;> split <;> rfl
+
+/-- **The statements above do say something: a program that completes untouched frames.** The
+power-on machine of the model has all-zero memory, so with interrupts disabled the CPU executes
+NOPs (one 4-T opcode fetch each, plus ULA delays) for ever. After 17727 or more instructions — from
+any such CPU state, on either machine, with any input — at least one frame has been completed and
+the frame completed last was not touched; `frame_is_decode_every_program` then applies and says that
+every pixel of the delivered canvas is the decode of an all-zero screen: black paper, not bright. -/
+theorem idle_machine_delivers_decoded_frames (m : Machine) (inp : Nat → BitVec 8) (v : Variant) (s : Cpu)
+    (h1 : s.iff1 = false) (h2 : s.skipInt = false) (h3 : s.activePrefix = .none) (n : Nat) (hn : 17727 ≤ n)
+    (x y : Nat) (hx : x < 256) (hy : y < 192) (d : Px) :
+    let z := (Z80.run v n (s, VBus.new m inp)).2
+    1 ≤ z.ctl.passedFrames ∧ z.doneTouches = 0 ∧
+    z.ctl.screen.front.getD (y * 256 + x) d = pxCode 0 false := by
+  intro z
+  obtain ⟨hi, ht⟩ := idle_run m v n s _ (Idle.new m inp s h1 h2 h3)
+  have g : SGood m z := program_keeps_good m v n s _ (SGood.new m inp)
+  have hin := g.level.inFrame
+  have hpf : 1 ≤ z.ctl.passedFrames := by
+    have ht' : 4 * n ≤ z.ctl.passedFrames * z.ctl.machine.clocksFrame + z.ctl.frameClocks := by
+      have h0 : (VBus.new m inp).ctl.total = 0 := by simp [Ctl.total, VBus.new, Ctl.new]
+      rw [h0] at ht
+      simpa [Ctl.total] using ht
+    have hcf : z.ctl.machine.clocksFrame ≤ 70908 := by cases z.ctl.machine <;> decide
+    cases hz : z.ctl.passedFrames with
+    | zero => rw [hz] at ht'; omega
+    | succ k => omega
+  refine ⟨hpf, hi.dtouches, ?_⟩
+  have hdec := frame_is_decode_every_program m inp v n s x y hx hy d hpf hi.dtouches
+  show z.ctl.screen.front.getD (y * 256 + x) d = _
+  rw [hdec, hi.dmem]
+  simp [new_ramByte, Spec.stdPx, Spec.stdDecode]
 
 /-- the power-on bus state of either machine has the invariants (the base of every statement above) -/
 example : SGood .k48 (VBus.new .k48 (fun _ => 0xFF)) ∧ SGood .k128 (VBus.new .k128 (fun n => BitVec.ofNat 8 n)) :=
